@@ -323,6 +323,39 @@ def decision_request(case, gene):
             "chr_xy": gene.chr in ["X", "Y"], "all_region_cov": [lib.frac(x) for x in allcov], "rows": rows}
 
 
+def exome_history():
+    """`where copy-number calling is unavailable (exome profile ...) exactly two default copies are assumed` - and only
+    there: a run with a copy-number capable profile estimates the structure also when the same gene was genotyped with
+    an exome profile earlier in the process"""
+    import os
+    import shutil
+    import sim
+    from aldy.genotype import genotype
+    from aldy.common import GRange, AldyException
+    d = sim.scratch_dir()
+    try:
+        g = views.shipped_gene("cyp2d6", "hg19")
+        cnr = GRange("22", 42547463, 42548249)
+        first = sorted(g.alleles["1"].minors)[0]
+        reads = sim.simulate_reads(g, [("1", first)] * 3, depth=10, read_len=100, name_prefix="s") + sim.neutral_reads(cnr, 20, read_len=100)
+        bam = os.path.join(d, "x.bam")
+        sim.write_bam(bam, reads, chrom="22", length=51304566)
+        out = []
+        for prof in ("wxs", "wgs"):
+            try:
+                res = genotype("cyp2d6", bam, prof, output_file=None)
+                out.append(sorted(tuple(sorted(dict(s_.major_solution.cn_solution.solution).items())) for s_ in list(res.values())[0]))
+            except AldyException as e:
+                out.append("ERROR " + str(e)[:60])
+        if out[0] != [(("1", 2),)]:
+            return f"exome profile: structure {out[0]} instead of two default copies"
+        if out[1] == [(("1", 2),)] or isinstance(out[1], str):
+            return f"three gene copies, profile wgs after an exome run of the same gene in this process: structure {out[1]} (two default copies assumed / failed instead of estimated)"
+        return None
+    finally:
+        shutil.rmtree(d, ignore_errors=True)
+
+
 def cn_pool(r, quick):
     pool = [{"kind": "toy", "genome": "hg19"}, {"kind": "toy", "genome": "hg38"}]
     import gen_gene
@@ -467,6 +500,10 @@ def tie(ctx):
                                    "input": inp_d, "signature": "c03:user_structure_not_verbatim"})
         if not same:
             fam["cn_decision"]["disagreements"].append({"why": f"estimate_cn decided {dec} but the model decides {o}", "input": {k: v for k, v in case.items() if k != 'gene'} | {"gene": case["gene"].get("kind")}})
+    hist = exome_history()
+    stats["exome_histories"] = 1
+    if hist:
+        violations.append({"why": hist, "input": {"gene": "cyp2d6", "sample": "three simulated copies of CYP2D6*1", "calls": ["wxs", "wgs"]}, "signature": "c03:structure_after_exome_run"})
     return {"families": fam, "violations": violations, "evaluations": len(runs) + len(fruns) + len(druns), "distinct_nontrivial": len(distinct),
             "rule": "depth vectors = planted structure of 2 complete + 0-3 extra copies (+ extra pseudogene copies) with noise <= 0.5 on a 0.01 grid, over toy / generated (0-1 pseudogene, fusions, deletion, custom deletions) / shipped CYP2D6, CYP2A6, GSTM1 catalogues, max_cn 3-6, gap {0,0.1,0.3}, optional fusion support and penalty changes; non-trivial = at least one yield; distinct by hash",
             "samples": samples, "stats": dict(stats) | {"constraint_families_hit": dict(famhit)}}
